@@ -22,25 +22,44 @@ TARGETS = ["Base/Corr.vo", "C11/Model.vo", "C11/Spec.vo", "C11/Dense.vo", "C11/C
            "C11/ModelIt2.vo", "C11/CorrIt2.vo", "C11/ProofsIt2.vo", "C11/PropsIt2.vo",
            # round 5: iteration started in the middle (IteratorFrom) with pending zeros, vectors + matrices
            "C11/ModelMatFrom.vo", "C11/DenseMatFrom.vo", "C11/CorrMat3.vo", "C11/ProofsMatFrom.vo",
-           "C11/PropsMatFrom.vo"]
+           "C11/PropsMatFrom.vo",
+           # round 6: matrix permutations (PermuteRows / PermuteColumns / SymmetricPermutation)
+           "C11/ModelMatPerm.vo", "C11/DenseMatPerm.vo", "C11/CorrMat4.vo", "C11/ProofsMatPerm.vo",
+           # round 6: the statement language of the translator go2coq_c11 + exp_* = model functions
+           "C11/GenLib.vo", "C11/PropsMatPerm.vo",
+           # round 6: dense reading of Row / Col / Diag
+           "C11/ProofsMatRow.vo", "C11/ProofsMatRow2.vo", "C11/PropsMatRow.vo"]
 PROPS = ["C11/Props.v", "C11/PropsIt.v", "C11/PropsMat.v", "C11/PropsMat2.v", "C11/PropsPay.v", "C11/PropsIt2.v",
-         "C11/PropsMatFrom.v"]
+         "C11/PropsMatFrom.v", "C11/PropsMatPerm.v", "C11/PropsMatRow.v"]
 PROP_MODULES = [("C11.Props", "C11/Props.v"), ("C11.PropsIt", "C11/PropsIt.v"), ("C11.PropsMat", "C11/PropsMat.v"),
                 ("C11.PropsMat2", "C11/PropsMat2.v"), ("C11.PropsPay", "C11/PropsPay.v"),
-                ("C11.PropsIt2", "C11/PropsIt2.v"), ("C11.PropsMatFrom", "C11/PropsMatFrom.v")]
+                ("C11.PropsIt2", "C11/PropsIt2.v"), ("C11.PropsMatFrom", "C11/PropsMatFrom.v"),
+                ("C11.PropsMatPerm", "C11/PropsMatPerm.v"), ("C11.PropsMatRow", "C11/PropsMatRow.v")]
 PARTIAL = ("Theorems are about the hand-written models coq/C11/Model.v (vector_sparse_template.in: heap of cells + "
            "value map + ordered key set standing for the AVL index, justified by C19), ModelIt.v / ModelIt2.v (held "
-           "iterators), ModelMat.v (sparse matrices, whole matrices only) and ModelMatFrom.v (matrix IteratorFrom). Element "
-           "carrier Z. The dense refinement (vectors: all 25 operations incl. ConstIteratorFrom; matrices: all 22 "
-           "operations + ConstIteratorFrom(i,j) full / abandoned, world level, whole histories) is stated for "
-           "histories in which in-place writes go to containers holding no scalar shared with another one (Dense.safe / "
-           "DenseMat.msafe; shared-cell writes = known finding C11-SLICEWT, T() sharing = C10 F-SPT-REF). Iterators held "
+           "iterators), ModelMat.v (sparse matrices, whole matrices only), ModelMatFrom.v (matrix IteratorFrom) and "
+           "ModelMatPerm.v (PermuteRows / PermuteColumns / SymmetricPermutation). Tie: correspondence on every run for all "
+           "of them; by TRANSLATION only for the six exchange / permutation methods of the sparse matrices (go2coq_c11 "
+           "regenerates Swap / SwapRows / SwapColumns / PermuteRows / PermuteColumns / SymmetricPermutation from all nine "
+           "matrix_sparse_<t>.go, Coq proves them equal to the model functions); every other method is hand-transcribed. "
+           "Element carrier Z. The dense refinement (vectors: all 25 operations incl. ConstIteratorFrom; matrices: all 22 "
+           "operations + ConstIteratorFrom(i,j) full / abandoned + the three permutations, world level, whole histories) "
+           "is stated for histories in which in-place writes go to containers holding no scalar shared with another one "
+           "(Dense.safe / DenseMat.msafe; shared-cell writes = known finding C11-SLICEWT, T() sharing = C10 F-SPT-REF); "
+           "the permutations need no such premise (they only move scalars). In range for a permutation = on a square n x n "
+           "matrix pi has >= n entries, the first n in [0, n) (pi need not be a permutation; non-square: error); what the "
+           "code does outside (pi[i] = n passes the guard `> n` and panics in mid-loop, pi too short panics, pi[i] < 0 or > n "
+           "returns the error in mid-loop) is modelled and replayed, coherence is proved for ANY pi, but no dense reading "
+           "is claimed there. Row / Col / Diag: the returned vector is proved coherent, fresh (shares nothing), reading as "
+           "the dense row / column / diagonal and indexing exactly its non-zero positions, after any history; the raw "
+           "observation payload (obs_vec) is tied by correspondence only. Iterators held "
            "across an index-replacing operation (ReverseOrder/Sort/Permute, known finding C11-STALEIT) are characterised "
            "exactly: a stale iterator whose node is valid walks the OLD key set beyond its cursor, an invalid one re-finds "
            "in the new index; whether the node is valid is an AVL-internal fact the key-set model cannot derive for "
            "non-fresh iterators: it is read off the implementation (hook VerifC11ItValid) as an input of the move and "
-           "cross-checked against the model wherever the model knows it (K_BADORACLE). Sparse matrix views (Slice) "
-           "are C10's findings and excluded; Row/Col/Diag payloads have no dense reading here. No statement is named "
+           "cross-checked against the model wherever the model knows it (K_BADORACLE). Not modelled: sparse matrix views "
+           "(Slice: C10's findings, excluded), AsVector / ConstRow (alias `values` / share its scalars), matrix joint "
+           "iterators, AsMatrix / ToSparseMatrix, Import/Export/JSON, the arithmetic of *_math.go (C03). No statement is named "
            "_partial except the superseded PropsMat.mat_refinement_single_step_partial / mat_write_lists_partial "
            "(completed by PropsMat2.v).")
 KNOWN_PROPOSED = os.path.join(vlib.ROOT, "corpus/C11/known_findings_proposed.json")
@@ -168,6 +187,46 @@ def known(ctx, binary):
             ctx.notes.append("known finding %s no longer reproduces: %s" % (f["id"], k["detail"]))
 
 
+def translate(ctx):
+    """Regenerate the sparse-matrix methods Swap / SwapRows / SwapColumns / PermuteRows / PermuteColumns /
+    SymmetricPermutation from vlib.REPO (all nine matrix_sparse_<t>.go) with go2coq_c11 and let Coq check that the
+    regenerated definitions are the expected ones of coq/C11/GenLib.v (which are proved to be the model functions).
+    Returns the list of failures."""
+    tool, tlog = vlib.build_tool("go2coq_c11", "go2coq_c11")
+    if tool is None:
+        ctx.oblige(1, 0)
+        return [{"target": "go2coq_c11 build", "lemma": None, "errors": [tlog[-1500:]]}]
+    gen = os.path.join(ctx.dir, "GenPerm.v")
+    rp = os.path.join(ctx.dir, "gen_report.json")
+    for f in (gen, rp):
+        if os.path.exists(f):
+            os.remove(f)
+    rc, out = vlib.sh([tool, "-repo", vlib.REPO, "-out", gen, "-report", rp], timeout=120, env=vlib.go_env())
+    if rc != 0 or not os.path.exists(gen) or not os.path.exists(rp):
+        ctx.oblige(1, 0)
+        return [{"target": "go2coq_c11 run", "lemma": None, "errors": [out[-1500:]]}]
+    report = json.load(open(rp))
+    ctx.cov["translator"] = report
+    rc, out = vlib.coqc_file(gen, timeout=600)
+    for ext in (".vo", ".vok", ".vos", ".glob"):
+        q = gen[:-2] + ext
+        if os.path.exists(q):
+            os.remove(q)
+    aux = os.path.join(ctx.dir, ".GenPerm.aux")
+    if os.path.exists(aux):
+        os.remove(aux)
+    ok = rc == 0 and bool(report.get("ok"))
+    ctx.oblige(1, 1 if ok else 0)
+    ctx.log("translator go2coq_c11: %d of 9 instantiations identical, tie gen_* = exp_* %s" % (
+        len(report.get("identical") or []), "holds" if ok else "BROKEN"))
+    if ok:
+        return []
+    return [{"target": "translation tie runs/C11/GenPerm.v: the sparse-matrix methods Swap / SwapRows / SwapColumns / "
+                       "PermuteRows / PermuteColumns / SymmetricPermutation regenerated from the library are no longer the "
+                       "model functions (or an instantiation differs from the others: %s)" % (report.get("differ") or []),
+             "lemma": "generated_methods_are_the_model", "errors": [out[-1500:]]}]
+
+
 def run(ctx):
     ctx.cov["trusted_base"] = vlib.TRUSTED_BASE_COMMON + [
         "hook /repo/verif_c11.go (read-only dump of the private map, nil placeholders and AVL index keys)",
@@ -176,6 +235,9 @@ def run(ctx):
         "the stale-iterator model ModelIt2.v, cross-checked where the model knows it)",
         "C19's AVL model (coq/C19/Model.v) for the tree-level justification of the two stale-iterator branches (PropsIt2.v)",
         "the AVL index is abstracted to its ordered key set (C19's refinement theorem)",
+        "go2coq_c11 (translator, ~400 lines of Go, go/parser + go/ast only): trusted for the shape of the Gallina text it prints "
+        "for the six exchange / permutation methods of the nine sparse matrix types; what the text MEANS is checked by Coq "
+        "(GenPerm.v: gen_* = exp_* by reflexivity; GenLib.v: exp_* = model functions, proved)",
         "axioms: see 'print_assumptions' (expected: closed under the global context)"]
     ctx.cov["partial"] = PARTIAL
     ok, failures = vlib.proof_stage(ctx, TARGETS, PROPS)
@@ -183,6 +245,8 @@ def run(ctx):
     ctx.cov["theorems"] = [t for _, ths in mods for t in ths]
     if ok:
         ctx.cov["print_assumptions"] = vlib.print_assumptions("C11", mods, ctx.dir)
+    if ok:
+        failures = failures + translate(ctx)
     binary, blog = vlib.build_harness("c11")
     if binary is None:
         ctx.violation({"obligation": "build of harness/c11 against the library", "log": blog[-3000:]}, False,
@@ -202,7 +266,7 @@ def run(ctx):
     broken = [f["target"] for f in failures] + (["correspondence C11.Corr.check"] if bad else []) + \
              (["correspondence C11.CorrIt (held iterators)"] if bad_held else []) + \
              (["correspondence C11.CorrIt2 (stale iterators)"] if bad_held2 else []) + \
-             (["correspondence C11.CorrMat3 (sparse matrices incl. IteratorFrom)"] if bad_mat else [])
+             (["correspondence C11.CorrMat4 (sparse matrices incl. IteratorFrom and the permutations)"] if bad_mat else [])
     if h0:
         ctx.violation({"case": h0["case"], "failure": h0["failure"], "at": h0["at"], "broken": broken}, True,
                       "sparse vector violates coherence / dense agreement / iteration: " + h0["failure"])
@@ -229,7 +293,7 @@ def run(ctx):
                       "violating the property itself was found" % len(bad))
     if bad_mat:
         ctx.violation({"case": bad_mat[0], "part": "mat",
-                       "obligation": "correspondence C11.CorrMat3 (sparse-matrix model incl. IteratorFrom vs implementation)"},
+                       "obligation": "correspondence C11.CorrMat4 (sparse-matrix model incl. IteratorFrom and the permutations vs implementation)"},
                       False, "sparse-matrix model and implementation disagree on a history (%d of them), but no "
                       "history violating the property itself was found" % len(bad_mat))
     if bad_held2:
